@@ -22,6 +22,8 @@ from .. import core
 from ..core import Check, classify_exception, canon, ERR
 
 PROP = "C12"
+F_RELOAD = "C12/failed_load_unguards_save"
+F_BRACKET = "C12/filter_splits_at_bracketed_commas"
 
 MODEL = """[request_definition]
 r = sub, obj, act
@@ -60,6 +62,31 @@ def py_rule_kept(P, G, key, fs):
     if len(F) > len(fs):
         return False
     return all(blank(v) or v.strip() == fs[i] for i, v in enumerate(F))
+
+
+def py_split_top(line):
+    """split at the commas that are outside brackets"""
+    out, cur, depth = [], "", 0
+    for c in line:
+        if c in "([":
+            depth += 1
+        elif c in ")]":
+            depth = max(depth - 1, 0)
+        if c == "," and depth == 0:
+            out.append(cur)
+            cur = ""
+        else:
+            cur += c
+    return out + [cur]
+
+
+def has_bracketed_comma(text):
+    """fingerprint of F_BRACKET: some p/g line whose naive comma split differs from its top-level split"""
+    for l in text.split("\n"):
+        l = l.strip()
+        if l and l[0] != "#" and py_split_top(l)[0].strip() in ("p", "g") and py_split_top(l) != l.split(","):
+            return True
+    return False
 
 
 def py_empty_filter(P, G):
@@ -155,6 +182,8 @@ def spec_check(chk, text, gcount, ops, base, steps):
     init_model = [[s, k, []] for s, k, _ in base]
     prev = [1, canon(init_model), None, canon(text)]       # constructor: filtered = True, nothing loaded
     counts = dict(g=gcount, g2=2)
+    partial = True          # history variable "the loaded policy is a partial view" (Filtered.ghost_next)
+    load_raised = False
     # spec requests for the load steps
     reqs, where = [], []
     for i, op in enumerate(ops):
@@ -172,6 +201,9 @@ def spec_check(chk, text, gcount, ops, base, steps):
         flag_b, model_b, _, file_b = before
         flag_a, model_a, links_a, file_a = after
         # (1) the store is never written while the loaded policy is a filtered subset
+        if op[0] == 3 and partial and res == [0, []]:
+            bad.append((i, "save_policy wrote a partial view over the store (the view is partial by its load history)",
+                        [999, ERR["EFilteredSave"]], res, F_RELOAD if (load_raised and not flag_b) else None))
         if op[0] == 3:
             if flag_b:
                 if res != [999, ERR["EFilteredSave"]]:
@@ -187,8 +219,8 @@ def spec_check(chk, text, gcount, ops, base, steps):
             bad.append((i, "is_filtered() still true after a full load_policy", 0, flag_a))
         if op[0] in (1, 2):
             empty = py_empty_filter(op[1], op[2])
-            plain, m_subset, m_stored, m_empty = reps[i]
-            if bool(m_empty) != empty:
+            plain, m_subset, m_stored, m_empty, grammar = reps[i]
+            if bool(m_empty) != empty and len(chk.disagreements) < 3:
                 chk.disagree(dict(kind="empty-filter", P=op[1], G=op[2]), empty, m_empty,
                              where="empty filter: Python statement vs Filtered.is_empty_filter")
             if empty and flag_a != 0:
@@ -197,21 +229,35 @@ def spec_check(chk, text, gcount, ops, base, steps):
                 bad.append((i, "is_filtered() false after a filtered load", 1, flag_a))
         # (3) exactly the subset, appended to what was loaded (incremental) or replacing it
         if op[0] in (0, 1, 2) and res == [0, []]:
-            plain, m_subset, m_stored, m_empty = reps[i]
-            if plain:
+            plain, m_subset, m_stored, m_empty, grammar = reps[i]
+            if plain or grammar:
                 want = m_stored if (op[0] == 0 or m_empty) else m_subset
                 if model_a != want:
+                    fid = F_BRACKET if (not plain and op[0] != 0 and has_bracketed_comma(core.wstr(file_b))) else None
                     bad.append((i, "loaded policy is not exactly the filtered subset of the stored rules"
-                                if op[0] != 0 else "full load did not load the stored rules", want, model_a))
+                                if op[0] != 0 else "full load did not load the stored rules", want, model_a, fid))
                 if op[0] != 0 and not m_empty:
                     stored = {core.wstr(k): pol for s, k, pol in m_stored if chr(s) in "pg"}
                     sub = {core.wstr(k): pol for s, k, pol in m_subset if chr(s) in "pg"}
                     if any(0 < len(sub[k]) for k in ("p", "g")) and any(len(sub[k]) < len(stored[k]) for k in ("p", "g")):
                         nontrivial = True
+        # history variable, from the implementation's own outcomes
+        ok = res == [0, []]
+        adapter_done = ok or res == [999, ERR["EGroupArity"]]     # raised only while building role links
+        if op[0] == 0:
+            partial = False if ok else partial
+        elif op[0] == 1:
+            partial = (not py_empty_filter(op[1], op[2])) if adapter_done else True
+        elif op[0] == 2:
+            partial = (not py_empty_filter(op[1], op[2])) if adapter_done else partial
+        if op[0] != 3 and not ok:
+            load_raised = True
+        if op[0] in (0, 1, 2) and res == [0, []]:
             # (4) links from exactly the loaded g rules
             want_links = [[k, [r[:counts[core.wstr(k)]] for r in pol]] for s, k, pol in model_a if chr(s) == "g"]
             if links_a != want_links:
                 bad.append((i, "role links are not those of the loaded g rules", want_links, links_a))
+    bad = [b if len(b) == 5 else b + (None,) for b in bad]
     return bad, nontrivial
 
 
@@ -337,10 +383,10 @@ def judge(chk, text, gcount, ops, record=True, stratum=""):
     case = dict(kind="trace", file=text, gcount=gcount, ops=ops, stratum=stratum)
     verdict = "ok"
     if bad:
-        verdict = "spec"
+        verdict = "spec:" + str(bad[0][4]) if bad[0][4] else "spec"
         if record:
-            i, what, want, got = bad[0]
-            chk.spec_fail(case, dict(step=i, got=got, outcomes=[s[0] for s in steps]), want, what)
+            i, what, want, got, fid = bad[0]
+            chk.spec_fail(case, dict(step=i, got=got, outcomes=[s[0] for s in steps]), want, what, finding=fid)
     elif canon(steps) != model:
         verdict = "model"
         if record:
@@ -433,12 +479,15 @@ def run(chk, n_random, masks_files, maxlen):
             chk.sample(dict(file=text, gcount=gcount, ops=ops, outcomes=[s[0] for s in steps],
                             flags=[s[1][0] for s in steps]))
         if verdict != "ok":
-            if len(chk.spec_failures) + len(chk.disagreements) >= 3:
+            if verdict.startswith("spec:") and verdict[5:] in chk.known_hits:
+                chk.extra["known_finding_cases"] = chk.extra.get("known_finding_cases", 0) + 1
+                continue
+            if len(chk.spec_failures if verdict.startswith("spec") else chk.disagreements) >= 3:
                 chk.extra["further_failures_not_shrunk"] = chk.extra.get("further_failures_not_shrunk", 0) + 1
                 continue
             t2, o2 = shrink(chk, text, gcount, ops, verdict)
             judge(chk, t2, gcount, o2, record=True, stratum=st + "/shrunk")
-        elif len(vm_reqs) < 160 and len(text) < 200:
+        elif len(vm_reqs) < (160 if chk.tier == "quick" else 800) and len(text) < 200:
             vm_reqs.append((1, [counts_wire(gcount), text, base, ops]))
             vm_reps.append(model)
     chk.traces += len(cases)
@@ -461,6 +510,10 @@ def replay(chk):
     print(f"replay: outcomes={[s[0] for s in steps]} flags={[s[1][0] for s in steps]} model_agrees={canon(steps) == model}")
     if bad:
         print(f"  spec: step {bad[0][0]}: {bad[0][1]}")
+        if bad[0][4] and all(b[4] == bad[0][4] for b in bad) and \
+                any(f["id"] == bad[0][4] and f.get("status") == "known" for f in chk.findings):
+            print(f"KNOWN-FINDING: property={PROP} {bad[0][4]}")
+            sys.exit(0)
         print(f"VIOLATION property={PROP} replay={chk.replay_file}")
         sys.exit(1)
     print("replay passes: implementation agrees with the spec on this input")
@@ -479,8 +532,9 @@ def main():
     chk.assumptions = [
         "filters carry both attributes P and G as lists of strings (a Filter with only one of them set raises 'invalid filter type')",
         "the length clause of filter_words is part of the characterisation: a filter with more positions than the rule has fields drops the rule even if the extra positions are blank (C12_kept_iff states it)",
-        "the rule-level reading (C12_filtered_load_is_subset_exactly) is claimed for files whose lines are bracket-free with a non-blank first field (plain_text): filter_line splits at every comma while the loader splits at top-level commas only; outside that guard the line-level theorems still hold and the model is still compared",
+        "known finding C12/filter_splits_at_bracketed_commas: filter_line splits a line at EVERY comma while the loader splits at top-level commas only, so on a p/g rule with a comma inside brackets the filter looks at the wrong pieces; the rule-level theorems (C12_filtered_load_is_subset_exactly_partial ...) carry the guard plain_text (bracket-free lines with a non-blank first field), C12_filtered_load_is_subset_exactly_refuted is the witness; the line-level theorems (kept_iff, never_overwrites, flags, links) have no such guard",
         "the policy file exists and is UTF-8; auto_build_role_links stays enabled; no priority / subject-hierarchy model",
+        "known finding C12/failed_load_unguards_save: a load that raises (unparsable line, g rule shorter than the role definition) after the adapter already cleared its flag — or half-way through an empty-filter load — leaves a partial view with is_filtered() False; C12_partial_view_guarded_partial carries the guard 'no load raised', C12_partial_view_guarded_refuted the witness",
         "AsyncEnforcer.load_increment_filtered_policy is C18's concern",
     ]
     chk.trusted = ["hand-written model coq/theories/Filtered.v (+ Csv.v) of filtered_file_adapter.py and the four Enforcer "
@@ -490,9 +544,9 @@ def main():
     if chk.replay_file:
         return replay(chk)
     if chk.tier == "thorough":
-        run(chk, 6000, 12, 6)
+        run(chk, 20000, 20, 6)
     else:
-        run(chk, 500, 2, 5)
+        run(chk, 1200, 3, 5)
         if chk.broken() and not chk.spec_failures:
             chk.notes.append("escalated to a bigger budget after a broken proof/correspondence")
             run(chk, 2500, 4, 5)
